@@ -117,6 +117,8 @@ type sim struct {
 	term  *nodetermination.Controller
 	pool  *v1.NodePool
 	views map[string]*corev1.Pod // informer copies handed to stale eviction-queue reconciles
+	ncView *v1.NodeClaim         // informer copy of the NodeClaim: refreshed by up-to-date reconciles, reused by stale ones
+	nView  *corev1.Node
 }
 
 func (s *sim) restart() {
@@ -125,6 +127,7 @@ func (s *sim) restart() {
 	s.term = nodetermination.NewController(s.w.Clock, s.w.Client, s.w.Prov,
 		terminator.NewTerminator(s.w.Clock, s.w.Client, s.queue, s.w.Rec), s.w.Rec)
 	s.views = map[string]*corev1.Pod{}
+	s.ncView, s.nView = nil, nil
 }
 
 // queueItems reads the eviction queue's unexported items map (pod -> node deadline) by reflection.
@@ -304,6 +307,10 @@ func (s *sim) step(st Step) error {
 			s.skip(st.A, "no-claim")
 			return nil
 		}
+		if st.Stale == 0 || s.ncView == nil {
+			s.ncView = nc.DeepCopy()
+		}
+		nc = s.ncView.DeepCopy()
 		s.bracket(actLifecycle, claimName, st, nil, func() (bool, error) {
 			r, err := s.lc.Reconcile(s.ctx, nc)
 			return r.Requeue || r.RequeueAfter > 0, err //nolint:staticcheck
@@ -314,6 +321,10 @@ func (s *sim) step(st Step) error {
 			s.skip(st.A, "no-node")
 			return nil
 		}
+		if st.Stale == 0 || s.nView == nil {
+			s.nView = n.DeepCopy()
+		}
+		n = s.nView.DeepCopy()
 		s.bracket(actTermination, nodeName, st, nil, func() (bool, error) {
 			r, err := s.term.Reconcile(injection.WithControllerName(s.ctx, actTermination), n)
 			return r.Requeue || r.RequeueAfter > 0, err //nolint:staticcheck
@@ -496,6 +507,42 @@ func (s *sim) step(st Step) error {
 		w.Clock.Step(time.Duration(st.D) * time.Second)
 	case "TickTo":
 		w.Clock.SetTo(world.Epoch.Add(time.Duration(st.To) * time.Second))
+	case "Settle": // the environment goes quiet and cooperates; every controller runs until nothing is left (bounded progress)
+		rounds, claimGone, nodeGone := 0, false, false
+		for ; rounds < 12; rounds++ {
+			claimGone, nodeGone = !w.Get(claim()), !w.Get(node())
+			if claimGone && nodeGone {
+				break
+			}
+			seq := []Step{{A: "LcRec"}, {A: "NodeRec"}, {A: "QAll"}}
+			pods := &corev1.PodList{}
+			w.List(pods)
+			for i := range pods.Items {
+				if !pods.Items[i].DeletionTimestamp.IsZero() {
+					seq = append(seq, Step{A: "PodGone", Pod: pods.Items[i].Name})
+				}
+			}
+			seq = append(seq, Step{A: "Tick", D: 6}, Step{A: "NodeRec"}, Step{A: "InstanceGone"}, Step{A: "NodeRec"}, Step{A: "LcRec"})
+			if rounds >= 3 { // volumes detach late, so that the wait (or the deadline) is exercised first
+				vas := &storagev1.VolumeAttachmentList{}
+				w.List(vas)
+				for i := range vas.Items {
+					w.EnvRemove(&vas.Items[i], "VolumeDetached")
+				}
+			}
+			for _, x := range seq {
+				if err := s.step(x); err != nil {
+					return err
+				}
+			}
+		}
+		leaked := 0
+		for _, i := range w.Prov.Instances {
+			if i.State != "gone" {
+				leaked++
+			}
+		}
+		w.Emit(trace.M{"e": "Settled", "rounds": rounds, "claimGone": claimGone, "nodeGone": nodeGone, "instancesLeft": leaked})
 	case "Restart":
 		s.restart()
 		w.Emit(trace.M{"e": "Restart"})
